@@ -19,7 +19,7 @@ use types::Backend;
 
 fn usage() -> ! {
     eprintln!(
-        "usage:\n  harness replay <file> [--backend H|L|P] [--owned|--borrowed] [--tries N]\n  harness explore --family <name> --backend H|L|P --seed N --count N --out <file> [--threads N] [--owned|--borrowed] [--replay-dir D] [--max-replays N]\n  harness families"
+        "usage:\n  harness replay <file> [--backend H|L|P] [--owned|--borrowed] [--tries N]\n  harness shrink <file> --want <monitor id prefix> [--backend H|L|P] [--owned|--borrowed] [--tries N] [--budget SECONDS]\n  harness explore --family <name> --backend H|L|P --seed N --count N --out <file> [--threads N] [--owned|--borrowed] [--replay-dir D] [--max-replays N]\n  harness families"
     );
     std::process::exit(2)
 }
@@ -65,6 +65,9 @@ fn main() {
             let (hb, ho) = replay::header_info(&text);
             let backend = backend.or(hb).unwrap_or(Backend::H);
             let owned = owned.or(ho).unwrap_or(false);
+            if text.lines().any(|l| l.starts_with("trace ") && l.split_whitespace().any(|t| t == "fine=1")) {
+                sched::FINE.store(true, std::sync::atomic::Ordering::SeqCst);
+            }
             // Backends H and P: the schedule in the file was recorded for one HashMap iteration
             // order; with another order the run may diverge (labels get skipped). `--tries N`
             // re-executes until the replay follows the file exactly (or N attempts are used up).
@@ -74,6 +77,148 @@ fn main() {
                 r = replay::replay(&text, "replay", backend, owned, &format!("file={} try={}", file, n + 1));
                 n += 1;
             }
+            print!("{}", r.text);
+        }
+        "shrink" => {
+            // Delta debugging on the `l` lines of a replay file: remove chunks of labels (then single labels)
+            // as long as a monitor whose id starts with --want still fires. Prints the minimised label list.
+            let mut file = None;
+            let mut backend = None;
+            let mut owned = None;
+            let mut tries = 1usize;
+            let mut want = String::new();
+            let mut budget = 60u64;
+            let mut i = 1;
+            while i < args.len() {
+                match args[i].as_str() {
+                    "--tries" => {
+                        i += 1;
+                        tries = args.get(i).and_then(|s| s.parse().ok()).unwrap_or_else(|| usage());
+                    }
+                    "--budget" => {
+                        i += 1;
+                        budget = args.get(i).and_then(|s| s.parse().ok()).unwrap_or_else(|| usage());
+                    }
+                    "--want" => {
+                        i += 1;
+                        want = args.get(i).cloned().unwrap_or_else(|| usage());
+                    }
+                    "--backend" => {
+                        i += 1;
+                        backend = args.get(i).and_then(|s| Backend::parse(s));
+                        if backend.is_none() {
+                            usage();
+                        }
+                    }
+                    "--owned" => owned = Some(true),
+                    "--borrowed" => owned = Some(false),
+                    s if !s.starts_with("--") => file = Some(s.to_string()),
+                    _ => usage(),
+                }
+                i += 1;
+            }
+            let Some(file) = file else { usage() };
+            if want.is_empty() {
+                usage();
+            }
+            let text = std::fs::read_to_string(&file).unwrap_or_else(|e| {
+                eprintln!("cannot read {}: {}", file, e);
+                std::process::exit(2)
+            });
+            let (hb, ho) = replay::header_info(&text);
+            let backend = backend.or(hb).unwrap_or(Backend::H);
+            let owned = owned.or(ho).unwrap_or(false);
+            let fine = text.lines().any(|l| l.starts_with("trace ") && l.split_whitespace().any(|t| t == "fine=1"));
+            if fine {
+                sched::FINE.store(true, std::sync::atomic::Ordering::SeqCst);
+            }
+            let _ = monitor::ONLY.set(vec![want.clone()]);
+            let start = std::time::Instant::now();
+            let mut runs = 0usize;
+            let mut test = |labels: &[String]| -> bool {
+                if start.elapsed().as_secs() >= budget {
+                    return false;
+                }
+                let t: String = labels.concat();
+                for _ in 0..tries.max(1) {
+                    runs += 1;
+                    let r = replay::replay(&t, "shrink", backend, owned, "");
+                    if r.violations.iter().any(|v| v.id.starts_with(want.as_str())) {
+                        return true;
+                    }
+                }
+                false
+            };
+            // annotate: replay the file once so that every label is followed by its recorded `o` lines
+            let mut text = text;
+            for _ in 0..tries.max(1) {
+                let r = replay::replay(&text, "annotate", backend, owned, "");
+                if r.violations.iter().any(|v| v.id.starts_with(want.as_str())) {
+                    text = r.text;
+                    break;
+                }
+            }
+            // one item = an `l` line with the `o` lines recorded for it (they carry the guard ids it created)
+            let mut labels: Vec<String> = Vec::new();
+            for l in text.lines() {
+                let l = l.trim();
+                if l.starts_with("l ") {
+                    labels.push(format!("{}\n", l));
+                } else if l.starts_with("o ") {
+                    if let Some(last) = labels.last_mut() {
+                        last.push_str(l);
+                        last.push('\n');
+                    }
+                }
+            }
+            let original = labels.len();
+            if !test(&labels) {
+                println!("# shrink: the file does not reproduce a {} violation; nothing done", want);
+                std::process::exit(1);
+            }
+            // cut everything after the label at which the violation shows up first
+            {
+                let mut lo = 1usize;
+                let mut hi = labels.len();
+                while lo < hi {
+                    let mid = (lo + hi) / 2;
+                    if test(&labels[..mid]) {
+                        hi = mid;
+                    } else {
+                        lo = mid + 1;
+                    }
+                }
+                labels.truncate(hi);
+            }
+            let mut chunk = (labels.len() / 2).max(1);
+            loop {
+                let mut changed = false;
+                let mut pos = 0usize;
+                while pos < labels.len() {
+                    let end = (pos + chunk).min(labels.len());
+                    let mut cand: Vec<String> = labels[..pos].to_vec();
+                    cand.extend_from_slice(&labels[end..]);
+                    if !cand.is_empty() && test(&cand) {
+                        labels = cand;
+                        changed = true;
+                    } else {
+                        pos = end;
+                    }
+                }
+                if chunk == 1 {
+                    if !changed {
+                        break;
+                    }
+                } else {
+                    chunk = (chunk / 2).max(1);
+                }
+                if start.elapsed().as_secs() >= budget {
+                    break;
+                }
+            }
+            let t: String = labels.concat();
+            let r = replay::replay(&t, "shrunk", backend, owned, &format!("from={}{}", file, if fine { " fine=1" } else { "" }));
+            println!("# shrink: {} -> {} labels, {} replays, want={}", original, labels.len(), runs, want);
             print!("{}", r.text);
         }
         "explore" => {
